@@ -38,34 +38,67 @@ Qed.
 Lemma not_in_app_l (c : ascii) a b : ~ In c (a ++ b) -> ~ In c a.
 Proof. intros Hn Hin. apply Hn. apply in_or_app; left; exact Hin. Qed.
 
-(* ends_with / drop_last / trim_slash *)
+(* ends_with / trim_slashes *)
 Lemma ends_with_snoc c s : ends_with c (s ++ [c]) = true.
 Proof. unfold ends_with, last_char. rewrite rev_unit. apply Ascii.eqb_refl. Qed.
 
-Lemma drop_last_snoc s (c : ascii) : drop_last (s ++ [c]) = s.
-Proof. unfold drop_last. apply removelast_last. Qed.
-
-Lemma trim_slash_snoc s : trim_slash (s ++ [ch_slash]) = s.
-Proof. unfold trim_slash. rewrite ends_with_snoc. apply drop_last_snoc. Qed.
-
-Lemma trim_slash_id s : ends_with ch_slash s = false -> trim_slash s = s.
-Proof. intro H. unfold trim_slash. rewrite H. reflexivity. Qed.
-
-Lemma trim_slash_nil : trim_slash [] = [].
+Lemma ends_with_single c x : ends_with c [x] = Ascii.eqb x c.
 Proof. reflexivity. Qed.
 
-Lemma trim_slash_prefix s : exists t, s = trim_slash s ++ t.
+Lemma ends_with_cons c x y s : ends_with c (x :: y :: s) = ends_with c (y :: s).
+Proof. unfold ends_with, last_char. cbn [rev]. destruct (rev s) as [|a r]; reflexivity. Qed.
+
+Lemma trim_slashes_cons c s :
+  trim_slashes (c :: s) =
+  match trim_slashes s with
+  | [] => if Ascii.eqb c ch_slash then [] else [c]
+  | y :: t => c :: y :: t
+  end.
+Proof. cbn [trim_slashes]. destruct (trim_slashes s); reflexivity. Qed.
+
+Lemma trim_slashes_nil : trim_slashes [] = [].
+Proof. reflexivity. Qed.
+
+(* nothing to remove *)
+Lemma trim_slashes_id s : ends_with ch_slash s = false -> trim_slashes s = s.
 Proof.
-  unfold trim_slash. destruct (ends_with ch_slash s) eqn:E.
-  - destruct s as [|x s].
-    + discriminate E.
-    + exists [last (x :: s) x]. unfold drop_last. apply app_removelast_last. discriminate.
-  - exists []. rewrite app_nil_r. reflexivity.
+  induction s as [|c s IH]; intro H; [reflexivity|].
+  rewrite trim_slashes_cons. destruct s as [|y s'].
+  - rewrite ends_with_single in H. cbn [trim_slashes]. rewrite H. reflexivity.
+  - rewrite ends_with_cons in H. rewrite (IH H). reflexivity.
 Qed.
 
-Lemma trim_slash_not_in c s : ~ In c s -> ~ In c (trim_slash s).
+(* one more trailing slash makes no difference *)
+Lemma trim_slashes_snoc s : trim_slashes (s ++ [ch_slash]) = trim_slashes s.
 Proof.
-  intro Hn. destruct (trim_slash_prefix s) as [t Ht]. rewrite Ht in Hn.
+  induction s as [|c s IH]; [reflexivity|].
+  change ((c :: s) ++ [ch_slash]) with (c :: (s ++ [ch_slash])).
+  rewrite !trim_slashes_cons, IH. reflexivity.
+Qed.
+
+(* the result never ends in a slash: parsing is idempotent through printing *)
+Lemma trim_slashes_no_trailing s : ends_with ch_slash (trim_slashes s) = false.
+Proof.
+  induction s as [|c s IH]; [reflexivity|].
+  rewrite trim_slashes_cons. destruct (trim_slashes s) as [|y t].
+  - destruct (Ascii.eqb c ch_slash) eqn:Ec; [reflexivity|].
+    rewrite ends_with_single. exact Ec.
+  - rewrite ends_with_cons. exact IH.
+Qed.
+
+Lemma trim_slashes_prefix s : exists t, s = trim_slashes s ++ t.
+Proof.
+  induction s as [|c s IH]; [exists []; reflexivity|].
+  destruct IH as [t Ht]. rewrite trim_slashes_cons.
+  destruct (trim_slashes s) as [|y u].
+  - destruct (Ascii.eqb c ch_slash); [exists (c :: s) | exists s]; reflexivity.
+  - exists t. change ((c :: y :: u) ++ t) with (c :: ((y :: u) ++ t)).
+    rewrite <- Ht. reflexivity.
+Qed.
+
+Lemma trim_slashes_not_in c s : ~ In c s -> ~ In c (trim_slashes s).
+Proof.
+  intro Hn. destruct (trim_slashes_prefix s) as [t Ht]. rewrite Ht in Hn.
   exact (not_in_app_l _ _ _ Hn).
 Qed.
 
@@ -152,9 +185,9 @@ Proof.
     + rewrite (IH eq_refl Ht). reflexivity.
 Qed.
 
-Lemma find_sub_trim_none s : find_sub ellipsis s = None -> find_sub ellipsis (trim_slash s) = None.
+Lemma find_sub_trim_none s : find_sub ellipsis s = None -> find_sub ellipsis (trim_slashes s) = None.
 Proof.
-  intro H. destruct (trim_slash_prefix s) as [t Ht]. rewrite Ht in H.
+  intro H. destruct (trim_slashes_prefix s) as [t Ht]. rewrite Ht in H.
   exact (find_sub_none_prefix _ _ _ H).
 Qed.
 
@@ -352,13 +385,13 @@ Definition abs_result (pp tp : str) (hc : bool) : option pattern :=
   match find_sub ellipsis pp with
   | Some i =>
       if i + 3 <? length pp then None
-      else Some (mkPat (trim_slash (firstn i pp)) tp true)
+      else Some (mkPat (trim_slashes (firstn i pp)) tp true)
   | None =>
-      if hc then Some (mkPat (trim_slash pp) tp false)
+      if hc then Some (mkPat (trim_slashes pp) tp false)
       else
         let tp' := after_last ch_slash pp in
         if null tp' then None
-        else Some (mkPat (trim_slash pp) tp' false)
+        else Some (mkPat (trim_slashes pp) tp' false)
   end.
 
 Lemma parse_pattern_abs cur body :
@@ -391,13 +424,13 @@ Qed.
 
 (* the package part printed for a recursive pattern is parsed back to the same prefix *)
 Lemma rec_pkg_part pre :
-  ~ In ch_colon pre -> find_sub ellipsis pre = None ->
+  ~ In ch_colon pre -> find_sub ellipsis pre = None -> ends_with ch_slash pre = false ->
   let pp := pre ++ (if null pre then ellipsis else ch_slash :: ellipsis) in
   ~ In ch_colon pp /\
   exists i, find_sub ellipsis pp = Some i /\ (i + 3 <? length pp) = false /\
-            trim_slash (firstn i pp) = pre.
+            trim_slashes (firstn i pp) = pre.
 Proof.
-  intros Hc Hf pp. subst pp. destruct (null pre) eqn:N.
+  intros Hc Hf He pp. subst pp. destruct (null pre) eqn:N.
   - apply null_true in N. subst pre. split.
     + apply not_in_ellipsis, dot_neq_colon.
     + exists 0. split; [reflexivity|]. split; reflexivity.
@@ -414,17 +447,17 @@ Proof.
         rewrite app_assoc.
         replace (length pre + 1) with (length (pre ++ [ch_slash]))
           by (rewrite app_length; reflexivity).
-        rewrite firstn_length_app. apply trim_slash_snoc.
+        rewrite firstn_length_app, trim_slashes_snoc. exact (trim_slashes_id _ He).
 Qed.
 
 Lemma abs_result_rec pre tp :
-  ~ In ch_colon pre -> find_sub ellipsis pre = None ->
+  ~ In ch_colon pre -> find_sub ellipsis pre = None -> ends_with ch_slash pre = false ->
   abs_result (pre ++ (if null pre then ellipsis else ch_slash :: ellipsis)) tp true
   = Some (mkPat pre tp true) /\
   abs_result (pre ++ (if null pre then ellipsis else ch_slash :: ellipsis)) tp false
   = Some (mkPat pre tp true).
 Proof.
-  intros Hc Hf. destruct (rec_pkg_part pre Hc Hf) as [_ [i [F [L T]]]].
+  intros Hc Hf He. destruct (rec_pkg_part pre Hc Hf He) as [_ [i [F [L T]]]].
   unfold abs_result. rewrite F, L, T. split; reflexivity.
 Qed.
 
@@ -432,7 +465,7 @@ Lemma abs_result_plain pre tp :
   find_sub ellipsis pre = None -> ends_with ch_slash pre = false ->
   abs_result pre tp true = Some (mkPat pre tp false).
 Proof.
-  intros Hf He. unfold abs_result. rewrite Hf, (trim_slash_id _ He). reflexivity.
+  intros Hf He. unfold abs_result. rewrite Hf, (trim_slashes_id _ He). reflexivity.
 Qed.
 
 Theorem parse_recursive cur pre :
@@ -440,8 +473,8 @@ Theorem parse_recursive cur pre :
   parse_pattern cur (dslash ++ pre ++ ch_slash :: ellipsis) = Some (mkPat pre [] true).
 Proof.
   intros [Hc [Hf He]] Hne.
-  destruct (rec_pkg_part pre Hc Hf) as [Hc' _].
-  destruct (abs_result_rec pre [] Hc Hf) as [_ R].
+  destruct (rec_pkg_part pre Hc Hf He) as [Hc' _].
+  destruct (abs_result_rec pre [] Hc Hf He) as [_ R].
   rewrite (proj2 (null_false _) Hne) in Hc', R.
   rewrite (parse_pattern_abs_nocolon _ _ Hc'). exact R.
 Qed.
@@ -510,8 +543,8 @@ Theorem recursive_name_pattern cur pre n l :
      (lpkg l = pre \/ exists r, lpkg l = pre ++ ch_slash :: r) /\ lname l = n).
 Proof.
   intros [Hc [Hf He]] Hne Hn1 Hn2 Hn3. exists (mkPat pre n true). split.
-  - destruct (rec_pkg_part pre Hc Hf) as [Hc' _].
-    destruct (abs_result_rec pre n Hc Hf) as [R _].
+  - destruct (rec_pkg_part pre Hc Hf He) as [Hc' _].
+    destruct (abs_result_rec pre n Hc Hf He) as [R _].
     rewrite (proj2 (null_false _) Hne) in Hc', R.
     change (dslash ++ pre ++ ch_slash :: ellipsis ++ ch_colon :: n)
       with (dslash ++ pre ++ (ch_slash :: ellipsis) ++ ch_colon :: n).
@@ -526,45 +559,67 @@ Qed.
 
 (* ------------------------------------------------------------------ print / re-parse *)
 
-(* the boolean guard under which String() is re-parsed to the same pattern *)
-Definition reprintable (p : pattern) : bool :=
-  prec p || (negb (mem_ch ch_colon (pprefix p)) && negb (contains ellipsis (pprefix p))
-             && negb (ends_with ch_slash (pprefix p))).
+(* A current package path as filepath.Rel produces it (no ':', no "...", no trailing slash).
+   This is the only guard left, and only RELATIVE patterns (":x", whose prefix is the current
+   package verbatim) need it; absolute patterns need none. *)
+Definition pkg_ok (cur : str) : bool :=
+  negb (mem_ch ch_colon cur) && negb (contains ellipsis cur) && negb (ends_with ch_slash cur).
+
+Lemma pkg_ok_facts cur :
+  pkg_ok cur = true ->
+  ~ In ch_colon cur /\ find_sub ellipsis cur = None /\ ends_with ch_slash cur = false.
+Proof.
+  intro H. unfold pkg_ok in H.
+  apply andb_true_iff in H as [H H3]. apply andb_true_iff in H as [H1 H2].
+  apply negb_true_iff in H1, H2, H3. split; [|split].
+  - apply mem_ch_false. exact H1.
+  - unfold contains in H2. destruct (find_sub ellipsis cur); [discriminate H2|reflexivity].
+  - exact H3.
+Qed.
 
 (* what a successful absolute parse guarantees about the resulting pattern *)
 Lemma abs_result_shape pp tp hc p :
   ~ In ch_colon pp -> (hc = true -> tp <> []) -> abs_result pp tp hc = Some p ->
   ~ In ch_colon (pprefix p) /\ find_sub ellipsis (pprefix p) = None /\
+  ends_with ch_slash (pprefix p) = false /\
   (prec p = false -> ptarget p <> []).
 Proof.
   intros Hc Htp H. unfold abs_result in H.
   destruct (find_sub ellipsis pp) as [i|] eqn:F.
   - destruct (i + 3 <? length pp); [discriminate H|].
-    injection H as <-. cbn [pprefix ptarget prec]. split; [|split].
-    + apply trim_slash_not_in, not_in_firstn, Hc.
+    injection H as <-. cbn [pprefix ptarget prec]. split; [|split; [|split]].
+    + apply trim_slashes_not_in, not_in_firstn, Hc.
     + apply find_sub_trim_none. exact (find_sub_firstn _ _ _ ellipsis_nonempty F).
+    + apply trim_slashes_no_trailing.
     + discriminate.
   - destruct hc.
-    + injection H as <-. cbn [pprefix ptarget prec]. split; [|split].
-      * apply trim_slash_not_in, Hc.
+    + injection H as <-. cbn [pprefix ptarget prec]. split; [|split; [|split]].
+      * apply trim_slashes_not_in, Hc.
       * apply find_sub_trim_none, F.
+      * apply trim_slashes_no_trailing.
       * intros _. apply Htp. reflexivity.
     + cbv zeta in H. destruct (null (after_last ch_slash pp)) eqn:N; [discriminate H|].
-      injection H as <-. cbn [pprefix ptarget prec]. split; [|split].
-      * apply trim_slash_not_in, Hc.
+      injection H as <-. cbn [pprefix ptarget prec]. split; [|split; [|split]].
+      * apply trim_slashes_not_in, Hc.
       * apply find_sub_trim_none, F.
+      * apply trim_slashes_no_trailing.
       * intros _. apply null_false. exact N.
 Qed.
 
+(* absolute patterns: the prefix is colon-free, ellipsis-free and has no trailing slash;
+   relative patterns: the prefix is the current package, never recursive *)
 Lemma parse_pattern_shape cur s p :
   parse_pattern cur s = Some p ->
   (prec p = false -> ptarget p <> []) /\
-  (prec p = true \/ has_prefix dslash s = true ->
-   ~ In ch_colon (pprefix p) /\ find_sub ellipsis (pprefix p) = None).
+  (has_prefix dslash s = true ->
+   ~ In ch_colon (pprefix p) /\ find_sub ellipsis (pprefix p) = None /\
+   ends_with ch_slash (pprefix p) = false) /\
+  (has_prefix dslash s = false -> pprefix p = cur /\ prec p = false).
 Proof.
   intro H. destruct (has_prefix dslash s) eqn:Hp.
   - apply has_prefix_spec in Hp as [body Hs]. subst s. rewrite parse_pattern_abs in H.
     assert (G : ~ In ch_colon (pprefix p) /\ find_sub ellipsis (pprefix p) = None /\
+                ends_with ch_slash (pprefix p) = false /\
                 (prec p = false -> ptarget p <> [])).
     { destruct (split_first ch_colon body) as [[a b]|] eqn:S.
       - apply split_first_some in S as [_ Hn].
@@ -574,7 +629,9 @@ Proof.
       - apply split_first_none in S.
         apply (abs_result_shape body [] false p S); [|exact H].
         intro Hd. discriminate Hd. }
-    destruct G as [G1 [G2 G3]]. split; [exact G3|]. intros _. split; assumption.
+    destruct G as [G1 [G2 [G3 G4]]]. split; [exact G4|]. split.
+    + intros _. split; [|split]; assumption.
+    + intro Hd. discriminate Hd.
   - unfold parse_pattern in H. rewrite Hp in H.
     destruct (split_first ch_colon s) as [[a name]|]; [|discriminate H].
     assert (G : p = mkPat cur name false /\ name <> []).
@@ -584,93 +641,87 @@ Proof.
       - destruct (valid_name name) eqn:V; [|discriminate H].
         injection H as <-. split; [reflexivity|].
         apply null_false. exact (valid_name_not_null _ V). }
-    destruct G as [-> Hne]. cbn [pprefix ptarget prec]. split.
+    destruct G as [-> Hne]. cbn [pprefix ptarget prec]. split; [|split].
     + intros _. exact Hne.
-    + intros [Hd|Hd]; discriminate Hd.
+    + intro Hd. discriminate Hd.
+    + intros _. split; reflexivity.
 Qed.
 
 Lemma reparse_core pre tp rc cur' :
-  ~ In ch_colon pre -> find_sub ellipsis pre = None ->
-  (rc = false -> tp <> [] /\ ends_with ch_slash pre = false) ->
+  ~ In ch_colon pre -> find_sub ellipsis pre = None -> ends_with ch_slash pre = false ->
+  (rc = false -> tp <> []) ->
   parse_pattern cur' (print_pattern (mkPat pre tp rc)) = Some (mkPat pre tp rc).
 Proof.
-  intros Hc Hf Hnr. unfold print_pattern. cbn [pprefix ptarget prec]. destruct rc.
-  - destruct (rec_pkg_part pre Hc Hf) as [Hc' _].
-    destruct (abs_result_rec pre tp Hc Hf) as [R1 R2].
+  intros Hc Hf He Hnr. unfold print_pattern. cbn [pprefix ptarget prec]. destruct rc.
+  - destruct (rec_pkg_part pre Hc Hf He) as [Hc' _].
+    destruct (abs_result_rec pre tp Hc Hf He) as [R1 R2].
     destruct tp as [|t tp].
     + cbn [null]. rewrite app_nil_r.
       rewrite (parse_pattern_abs_nocolon _ _ Hc'). exact R2.
     + cbn [null]. rewrite (app_assoc pre).
       rewrite (parse_pattern_abs_colon _ _ _ Hc'). cbn [null]. exact R1.
-  - destruct (Hnr eq_refl) as [Hne He].
+  - pose proof (Hnr eq_refl) as Hne.
     rewrite app_nil_l. rewrite (proj2 (null_false _) Hne).
     rewrite (parse_pattern_abs_colon _ _ _ Hc), (proj2 (null_false _) Hne).
     apply abs_result_plain; assumption.
 Qed.
 
-Lemma reprintable_false_facts p :
-  prec p = false -> reprintable p = true ->
-  ~ In ch_colon (pprefix p) /\ find_sub ellipsis (pprefix p) = None /\
-  ends_with ch_slash (pprefix p) = false.
-Proof.
-  intros Hrec H. unfold reprintable in H. rewrite Hrec in H. rewrite orb_false_l in H.
-  apply andb_true_iff in H as [H H3]. apply andb_true_iff in H as [H1 H2].
-  apply negb_true_iff in H1, H2, H3. split; [|split].
-  - apply mem_ch_false. exact H1.
-  - unfold contains in H2. destruct (find_sub ellipsis (pprefix p)); [discriminate H2|reflexivity].
-  - exact H3.
-Qed.
-
+(* String() of a parsed pattern is parsed back to the same pattern, in any current package:
+   always for absolute patterns, and for relative ones when the current package is a package path *)
 Theorem pattern_reparse cur s p :
-  parse_pattern cur s = Some p -> reprintable p = true ->
+  parse_pattern cur s = Some p -> has_prefix dslash s = true \/ pkg_ok cur = true ->
   forall cur', parse_pattern cur' (print_pattern p) = Some p.
 Proof.
-  intros H Hr cur'. destruct (parse_pattern_shape _ _ _ H) as [S1 S2].
-  destruct p as [pre tp rc]. cbn [pprefix ptarget prec] in S1, S2.
-  destruct rc.
-  - destruct (S2 (or_introl eq_refl)) as [Hc Hf].
-    apply reparse_core; [exact Hc | exact Hf | intro Hd; discriminate Hd].
-  - destruct (reprintable_false_facts (mkPat pre tp false) eq_refl Hr) as [Hc [Hf He]].
-    cbn [pprefix] in Hc, Hf, He.
-    apply reparse_core; [exact Hc | exact Hf |].
-    intros _. split; [exact (S1 eq_refl) | exact He].
+  intros H Hg cur'. destruct (parse_pattern_shape _ _ _ H) as [S1 [S2 S3]].
+  assert (G : ~ In ch_colon (pprefix p) /\ find_sub ellipsis (pprefix p) = None /\
+              ends_with ch_slash (pprefix p) = false).
+  { destruct (has_prefix dslash s) eqn:Hp.
+    - exact (S2 eq_refl).
+    - destruct Hg as [Hg|Hg]; [discriminate Hg|].
+      destruct (S3 eq_refl) as [Hcur _]. rewrite Hcur. exact (pkg_ok_facts _ Hg). }
+  destruct G as [Hc [Hf He]].
+  destruct p as [pre tp rc]. cbn [pprefix ptarget prec] in S1, Hc, Hf, He.
+  apply reparse_core; assumption.
 Qed.
 
-(* every absolute pattern (starting with "//") is covered unless it is non-recursive and its
-   package part ends in two slashes *)
+(* every absolute pattern (starting with "//"): no guard at all *)
 Theorem pattern_reparse_abs cur s p :
   has_prefix dslash s = true -> parse_pattern cur s = Some p ->
-  ends_with ch_slash (pprefix p) = false ->
   forall cur', parse_pattern cur' (print_pattern p) = Some p.
-Proof.
-  intros Hp H He cur'. destruct (parse_pattern_shape _ _ _ H) as [S1 S2].
-  destruct (S2 (or_intror Hp)) as [Hc Hf].
-  destruct p as [pre tp rc]. cbn [pprefix ptarget prec] in S1, Hc, Hf, He.
-  apply reparse_core; [exact Hc | exact Hf |].
-  intros ->. split; [exact (S1 eq_refl) | exact He].
-Qed.
+Proof. intros Hp H. exact (pattern_reparse cur s p H (or_introl Hp)). Qed.
 
 Corollary pattern_reparse_matches cur s p :
-  parse_pattern cur s = Some p -> reprintable p = true ->
+  parse_pattern cur s = Some p -> has_prefix dslash s = true \/ pkg_ok cur = true ->
   forall cur', exists p', parse_pattern cur' (print_pattern p) = Some p' /\
     forall l, matches p' l = matches p l.
 Proof.
-  intros H Hr cur'. exists p. split; [exact (pattern_reparse cur s p H Hr cur') | reflexivity].
+  intros H Hg cur'. exists p. split; [exact (pattern_reparse cur s p H Hg cur') | reflexivity].
 Qed.
 
-(* without the guard the statement is false: "//a//:x" *)
+(* "//a//:x", the input that used to print to a pattern with another match set, is now
+   normalised to "//a:x" by the parser *)
 Definition witness_pat : str :=
   [ch_slash; ch_slash; "a"%char; ch_slash; ch_slash; ch_colon; "x"%char].
 
-Theorem pattern_reparse_unguarded_refuted :
-  exists p p' l, parse_pattern [] witness_pat = Some p /\
-    parse_pattern [] (print_pattern p) = Some p' /\ matches p l <> matches p' l.
+Example pattern_reparse_abs_nonvacuous :
+  has_prefix dslash witness_pat = true /\
+  parse_pattern [] witness_pat = Some (mkPat ["a"]%char ["x"]%char false) /\
+  print_pattern (mkPat ["a"]%char ["x"]%char false)
+  = [ch_slash; ch_slash; "a"%char; ch_colon; "x"%char].
+Proof. split; [|split]; vm_compute; reflexivity. Qed.
+
+(* the remaining guard is about the current package only, and it is needed there: ":x" read in
+   a "current package" spelled "a/" prints as "//a/:x", which is package "a" *)
+Example pkg_ok_needed :
+  exists cur s p p' l,
+    pkg_ok cur = false /\ parse_pattern cur s = Some p /\
+    parse_pattern cur (print_pattern p) = Some p' /\ matches p l <> matches p' l.
 Proof.
-  exists (mkPat ["a"; "/"]%char ["x"]%char false),
-         (mkPat ["a"]%char ["x"]%char false),
+  exists ["a"; "/"]%char, [ch_colon; "x"%char],
+         (mkPat ["a"; "/"]%char ["x"]%char false), (mkPat ["a"]%char ["x"]%char false),
          (mkLabel ["a"]%char ["x"]%char).
   split; [vm_compute; reflexivity|]. split; [vm_compute; reflexivity|].
-  vm_compute. discriminate.
+  split; [vm_compute; reflexivity|]. vm_compute. discriminate.
 Qed.
 
 (* non-vacuity *)
@@ -687,8 +738,8 @@ Proof.
   intros [H|[H|[H|[]]]]; vm_compute in H; discriminate H.
 Qed.
 
-Example reprintable_nonvacuous :
-  exists p, parse_pattern ["c"]%char [ch_colon; "x"%char] = Some p /\ reprintable p = true.
+Example pkg_ok_nonvacuous :
+  exists p, parse_pattern ["c"]%char [ch_colon; "x"%char] = Some p /\ pkg_ok ["c"]%char = true.
 Proof.
   exists (mkPat ["c"]%char ["x"]%char false). split; vm_compute; reflexivity.
 Qed.
